@@ -71,14 +71,24 @@ class Ctx:
         self.notes = []
         self.known_printed = []
         self.findings = [f for f in load_findings() if f["property"] == prop]
+        self.avoh_bin = AVOH
 
     # ---------------------------------------------------------------- build
     def log(self, msg):
         print(f"[{self.prop} {time.time()-self.t0:6.1f}s] {msg}", flush=True)
 
-    def build_harness(self):
-        """go build -tags verif of the harness against /repo's working tree."""
-        with Lock():
+    COMMON_GO = ["main.go", "rng.go", "util.go", "genlean.go", "gen_regs.go", "formsdb.go", "prog.go"]
+
+    def build_harness(self, files=None):
+        """go build -tags verif of the harness against /repo's working tree.
+        With `files` (names under harness/), only the shared core plus those files are
+        compiled, into a per-property binary: another property's half-edited Go file then
+        cannot break this check."""
+        target = ["."]
+        if files is not None:
+            self.avoh_bin = os.path.join(BIN, "avoh-" + self.prop)
+            target = list(dict.fromkeys(self.COMMON_GO + list(files)))
+        with Lock("golock"):
             hdir = os.path.join(VERIF, "harness")
             # go.sum must be the repo's
             src = os.path.join(REPO, "go.sum")
@@ -87,7 +97,7 @@ class Ctx:
                 dst = os.path.join(hdir, "go.sum")
                 if not os.path.exists(dst) or open(dst).read() != data:
                     open(dst, "w").write(data)
-            rc, out = sh(["go", "build", "-tags", "verif", "-o", AVOH, "."], cwd=hdir, env=GOENV, timeout=900)
+            rc, out = sh(["go", "build", "-tags", "verif", "-o", self.avoh_bin] + target, cwd=hdir, env=GOENV, timeout=900)
         if rc != 0:
             self.log("harness build failed:\n" + out[-4000:])
             self.obligation_failures.append(("harness-build", out[-4000:]))
@@ -95,7 +105,7 @@ class Ctx:
         return True
 
     def avoh(self, args, timeout=3600, cwd=None):
-        rc, out = sh([AVOH] + args, cwd=cwd or self.dir, env=GOENV, timeout=timeout)
+        rc, out = sh([self.avoh_bin] + args, cwd=cwd or self.dir, env=GOENV, timeout=timeout)
         return rc, out
 
     def regen(self, modules):
@@ -106,7 +116,7 @@ class Ctx:
             for m in modules:
                 rel, name = m[0], m[1]
                 extra = list(m[2:]) if len(m) > 2 else []
-                rc, out = sh([AVOH, "gen-lean", name, REPO] + extra, cwd=self.dir, env=GOENV, timeout=900,
+                rc, out = sh([self.avoh_bin, "gen-lean", name, REPO] + extra, cwd=self.dir, env=GOENV, timeout=900,
                              )
                 path = os.path.join(LEAN, "AvoVerif", rel + ".lean")
                 if rc != 0:
@@ -150,17 +160,34 @@ class Ctx:
                 self.obligation_failures.append((t, errs or out[-3000:]))
         return ok_all
 
-    def forbidden_scan(self):
+    def lean_closure(self, roots):
+        """Files of this project transitively imported by the given module names."""
+        seen, todo = {}, list(roots)
+        while todo:
+            m = todo.pop()
+            if m in seen or not m.startswith(("AvoVerif", "drivers")):
+                continue
+            path = os.path.join(LEAN, *m.split(".")) + ".lean"
+            if not os.path.exists(path):
+                continue
+            seen[m] = path
+            for line in open(path, encoding="utf-8"):
+                mm = re.match(r"\s*(?:public\s+)?import\s+([\w.]+)", line)
+                if mm:
+                    todo.append(mm.group(1))
+        return seen
+
+    def forbidden_scan(self, roots=None):
+        """No sorry/admit/own axioms/native_decide/... in any Lean file the property's
+        theorems and driver depend on (comments stripped)."""
+        p = self.prop
+        roots = roots or [f"AvoVerif.Audit.{p}", f"AvoVerif.Drv.{p}", f"drivers.Drv{p}"]
+        files = sorted(self.lean_closure(roots).values())
         bad = []
-        for root, _, files in os.walk(os.path.join(LEAN, "AvoVerif")):
-            for fn in files:
-                if not fn.endswith(".lean"):
-                    continue
-                p = os.path.join(root, fn)
+        for p in files:
                 incomment = 0
                 for i, line in enumerate(open(p, encoding="utf-8"), 1):
                     code = line
-                    # strip block comments (approximate, nesting-aware) and line comments
                     outl = ""
                     j = 0
                     while j < len(code):
@@ -175,7 +202,7 @@ class Ctx:
                         j += 1
                     if FORBIDDEN.search(outl):
                         bad.append(f"{p}:{i}: {line.strip()}")
-        p = os.path.join(LEAN, "Driver.lean")
+        self.coverage["lean_files_scanned"] = len(files)
         if bad:
             self.obligation_failures.append(("forbidden-constructs", "\n".join(bad)))
         return bad
